@@ -333,6 +333,10 @@ def write_evidence(prop, tier, seed, P, results, violations, known, wall, truste
         "wall_s": round(wall, 2),
         "violations": len(violations),
     }
+    if obligations == 0:
+        # nothing could be verified on this tree (undecided): not a proof-level run
+        ev["level"] = "other"
+        ev["coverage"]["explanation"] = "UNDECIDED: no obligation could be generated / checked on this tree: " + "; ".join(undecided)[:1500]
     json.dump(ev, open(os.path.join(EVID, "%s.json" % prop), "w"), indent=1)
 
 
